@@ -177,6 +177,20 @@ def D3(m, R):
                 return pr
             return pr + _twin_call_problems(e, tw, sf, False)
 
+        # a mutating call made directly on the wrapped string (not on a copy of it) changes this AnsiStr, whatever is returned afterwards
+        direct = None
+        for st_ in body:
+            c_ = st_.value if isinstance(st_, ast.Expr) else None
+            if isinstance(c_, ast.Call) and isinstance(c_.func, ast.Attribute) and norm(c_.func.value) == wrapped and c_.func.attr in A.methods:
+                callee = A.methods[c_.func.attr]
+                if not _returns_value(callee) or 'inplace' in callee.own_params() + callee.kwonly:
+                    direct = c_
+            if isinstance(st_, ast.AugAssign) and norm(st_.target) == wrapped:
+                direct = st_
+        if direct is not None:
+            R.viol(sf, direct, '`%s` is applied to the wrapped string itself, not to a copy: this AnsiStr (and every AnsiStr sharing it) changes' % short(direct),
+                   construct=cons)
+            continue
         # property (attribute form)
         if sf.is_property:
             expr, ret = single_return(sf)
